@@ -64,10 +64,7 @@ func builtinAxioms(sym string) []string {
 // Emit renders the SMT-LIB text of a query. Returns text and the list of axiom labels included.
 func (p *Prelude) Emit(q *Query, wantModel bool) (string, []string) {
 	syms := map[string]SymSig{}
-	for _, h := range q.Hyps {
-		h.Symbols(syms)
-	}
-	q.Goal.Symbols(syms)
+	collectSymbols(append(append([]*Term(nil), q.Hyps...), q.Goal), syms)
 
 	// closure over definitions, axioms, string literal facts
 	usedDefs := map[string]bool{}
@@ -171,20 +168,32 @@ func (p *Prelude) Emit(q *Query, wantModel bool) (string, []string) {
 		}
 	}
 	// quantifier-bound sorts
-	var scan func(t *Term)
-	scan = func(t *Term) {
-		t.Walk(func(x *Term) {
-			for _, bv := range x.Bound {
+	{
+		// bound-variable sorts (DAG traversal)
+		vis := map[*Term]bool{}
+		var rec func(t *Term)
+		rec = func(t *Term) {
+			if vis[t] {
+				return
+			}
+			vis[t] = true
+			for _, bv := range t.Bound {
 				addSort(bv.Sort)
 			}
-		})
-	}
-	for _, h := range q.Hyps {
-		scan(h)
-	}
-	scan(q.Goal)
-	for i := range usedAx {
-		scan(p.Axioms[i].T)
+			for _, a := range t.Args {
+				rec(a)
+			}
+		}
+		for _, h := range q.Hyps {
+			rec(h)
+		}
+		rec(q.Goal)
+		for i := range usedAx {
+			rec(p.Axioms[i].T)
+		}
+		for _, f := range extra {
+			rec(f)
+		}
 	}
 	for n := range syms {
 		if _, ok := p.StrLits[n]; ok {
@@ -271,13 +280,20 @@ func (p *Prelude) Emit(q *Query, wantModel bool) (string, []string) {
 		labels = append(labels, ax.Label)
 		fmt.Fprintf(&b, "; axiom %s\n(assert %s)\n", ax.Label, ax.T)
 	}
+	roots := append(append(append([]*Term(nil), extra...), q.Hyps...), q.Goal)
+	dp := newDagPrinter(roots)
+	var body strings.Builder
 	for _, f := range extra {
-		fmt.Fprintf(&b, "(assert %s)\n", f)
+		fmt.Fprintf(&body, "(assert %s)\n", dp.print(f))
 	}
 	for _, h := range q.Hyps {
-		fmt.Fprintf(&b, "(assert %s)\n", h)
+		fmt.Fprintf(&body, "(assert %s)\n", dp.print(h))
 	}
-	fmt.Fprintf(&b, "; goal\n(assert (not %s))\n(check-sat)\n", q.Goal)
+	fmt.Fprintf(&body, "; goal\n(assert (not %s))\n(check-sat)\n", dp.print(q.Goal))
+	for _, d := range dp.defs {
+		b.WriteString(d + "\n")
+	}
+	b.WriteString(body.String())
 	if wantModel {
 		b.WriteString("(get-model)\n")
 	}
@@ -411,4 +427,111 @@ func WriteQuery(dir, name, text string) (string, error) {
 	}
 	p := filepath.Join(dir, safe+".smt2")
 	return p, os.WriteFile(p, []byte(text), 0o644)
+}
+
+// ---------------------------------------------------------------------------
+// DAG printer: large closed subterms that occur more than once are emitted once as
+// (define-fun $sN () Sort ...), so that the query text is linear in the size of the
+// term DAG (merged heaps are ite-DAGs with heavy sharing).
+
+type dagPrinter struct {
+	refs       map[Key]int
+	boundNames map[string]bool
+	closed     map[Key]bool
+	names      map[Key]string
+	defs       []string
+	n          int
+}
+
+func newDagPrinter(roots []*Term) *dagPrinter {
+	dp := &dagPrinter{refs: map[Key]int{}, boundNames: map[string]bool{}, closed: map[Key]bool{}, names: map[Key]string{}}
+	visited := map[Key]bool{}
+	var count func(t *Term)
+	count = func(t *Term) {
+		k := t.Key()
+		dp.refs[k]++
+		if visited[k] {
+			return
+		}
+		visited[k] = true
+		for _, b := range t.Bound {
+			dp.boundNames[b.Name] = true
+		}
+		for _, a := range t.Args {
+			count(a)
+		}
+	}
+	for _, r := range roots {
+		count(r)
+	}
+	return dp
+}
+
+func (dp *dagPrinter) isClosed(t *Term) bool {
+	k := t.Key()
+	if v, ok := dp.closed[k]; ok {
+		return v
+	}
+	c := true
+	if t.Op == "var" && dp.boundNames[t.Name] {
+		c = false
+	}
+	if c {
+		for _, a := range t.Args {
+			if !dp.isClosed(a) {
+				c = false
+				break
+			}
+		}
+	}
+	dp.closed[k] = c
+	return c
+}
+
+func (dp *dagPrinter) print(t *Term) string {
+	k := t.Key()
+	if n, ok := dp.names[k]; ok {
+		return n
+	}
+	if len(t.Args) == 0 && len(t.Bound) == 0 {
+		return t.String()
+	}
+	body := dp.raw(t)
+	if dp.refs[k] > 1 && t.Size() >= 12 && dp.isClosed(t) {
+		dp.n++
+		name := fmt.Sprintf("$s%d", dp.n)
+		dp.defs = append(dp.defs, fmt.Sprintf("(define-fun %s () %s %s)", name, t.Sort, body))
+		dp.names[k] = name
+		return name
+	}
+	return body
+}
+
+func (dp *dagPrinter) raw(t *Term) string {
+	switch t.Op {
+	case "lit", "var":
+		return t.String()
+	case "app":
+		if len(t.Args) == 0 {
+			return quoteSym(t.Name)
+		}
+		parts := []string{quoteSym(t.Name)}
+		for _, a := range t.Args {
+			parts = append(parts, dp.print(a))
+		}
+		return "(" + strings.Join(parts, " ") + ")"
+	case "forall", "exists":
+		bs := []string{}
+		for _, b := range t.Bound {
+			bs = append(bs, "("+quoteSym(b.Name)+" "+string(b.Sort)+")")
+		}
+		return "(" + t.Op + " (" + strings.Join(bs, " ") + ") " + dp.print(t.Args[0]) + ")"
+	case "constarr":
+		return "((as const " + string(t.Sort) + ") " + dp.print(t.Args[0]) + ")"
+	}
+	parts := []string{t.Op}
+	for _, a := range t.Args {
+		parts = append(parts, dp.print(a))
+	}
+	return "(" + strings.Join(parts, " ") + ")"
 }
